@@ -17,6 +17,7 @@
      TimerFire      the batch timer expires: its callback (carrying the token of the batch it was
                     armed for) is in flight towards BatchTimedOut
      Timeout        the event loop receives the oldest in-flight token: processEventBatch(token)
+     Cancel s       the context of a parked sender's call is cancelled (no effect in this code)
    handleCheckpointBarrier holds o.mu for its whole run and alignSender runs under o.mu.RLock, so a
    Gate never interleaves inside a barrier's Handle; the other handlers do not touch o.checkpoint. *)
 From Coq Require Import List NArith Bool Arith.
@@ -24,8 +25,9 @@ Import ListNotations.
 Open Scope N_scope.
 
 (* what a sender delivers: a keyed event (unique id, subject key, requested timer ts or 0),
-   a watermark, a checkpoint barrier *)
-Inductive item := IEv (id key tm : N) | IWm (t : N) | IBar (cid : N).
+   a watermark, a checkpoint barrier, SourceComplete (the runner has read its last record; it may still
+   send watermarks and barriers) *)
+Inductive item := IEv (id key tm : N) | IWm (t : N) | IBar (cid : N) | IDone.
 
 (* (sender, index in that sender's delivery sequence) *)
 Definition origin := (nat * nat)%type.
@@ -52,7 +54,8 @@ Definition msize (c : cfg) : N := if max_size c =? 0 then 1 else max_size c. (* 
 Record dat := mkDat {
   batch : list bitem; btoken : N; armed : option N; inflight : list N;
   wms : list N; wm : N; timers : list (N * N);
-  applied : list bitem; log : list lentry }.
+  applied : list bitem; log : list lentry;
+  active : list nat }.              (* sourceRunners.active: runners that have not sent SourceComplete *)
 
 Record st := mkSt {
   modes : list mode;
@@ -62,7 +65,7 @@ Record st := mkSt {
   dt : dat }.
 
 Definition init_dat (c : cfg) : dat :=
-  mkDat [] 0 None [] (repeat 0 (n_senders c)) 0 [] [] [].
+  mkDat [] 0 None [] (repeat 0 (n_senders c)) 0 [] [] [] (seq 0 (n_senders c)).
 Definition init (c : cfg) : st :=
   mkSt (repeat Idle (n_senders c)) (repeat [] (n_senders c)) None 0 (init_dat c).
 
@@ -95,7 +98,7 @@ Definition apply_item (x : dat) (b : bitem) : dat :=
              | BEv _ _ key tm => if negb (tm =? 0) && (wm x <? tm) then tinsert (tm, key) (timers x) else timers x
              | BTm _ _ _ => timers x
              end in
-  mkDat (batch x) (btoken x) (armed x) (inflight x) (wms x) (wm x) tms (b :: applied x) (LApp b :: log x).
+  mkDat (batch x) (btoken x) (armed x) (inflight x) (wms x) (wm x) tms (b :: applied x) (LApp b :: log x) (active x).
 
 (* tok = None is batching.CurrentBatch *)
 Definition flush (tok : option N) (x : dat) : dat :=
@@ -104,7 +107,7 @@ Definition flush (tok : option N) (x : dat) : dat :=
   | _ :: _ =>
       if match tok with None => true | Some t => t =? btoken x end then
         let x1 := mkDat [] (btoken x + 1) None (inflight x) (wms x) (wm x) (timers x) (applied x)
-                        (LCall (wm x) :: log x) in
+                        (LCall (wm x) :: log x) (active x) in
         fold_left apply_item (batch x) x1
       else x
   end.
@@ -112,7 +115,7 @@ Definition flush (tok : option N) (x : dat) : dat :=
 (* eventBatcher.Add; if IsFull then processEventBatch(CurrentBatch) *)
 Definition add_item (c : cfg) (x : dat) (b : bitem) : dat :=
   let arm := match batch x with [] => if delay c then Some (btoken x) else armed x | _ :: _ => armed x end in
-  let x1 := mkDat (batch x ++ [b]) (btoken x) arm (inflight x) (wms x) (wm x) (timers x) (applied x) (log x) in
+  let x1 := mkDat (batch x ++ [b]) (btoken x) arm (inflight x) (wms x) (wm x) (timers x) (applied x) (log x) (active x) in
   if msize c <=? N.of_nat (length (batch x1)) then flush None x1 else x1.
 
 Definition list_min (l : list N) : N :=
@@ -122,11 +125,14 @@ Definition handle_wm (c : cfg) (x : dat) (o : origin) (t : N) : dat :=
   let w := set_nth (fst o) t (wms x) in
   let m := list_min w in
   let '(fired, rest) := tsplit m (timers x) in
-  let x1 := mkDat (batch x) (btoken x) (armed x) (inflight x) w m rest (applied x) (log x) in
+  let x1 := mkDat (batch x) (btoken x) (armed x) (inflight x) w m rest (applied x) (log x) (active x) in
   fold_left (fun y tk => add_item c y (BTm o (snd tk) (fst tk))) fired x1.
 
 Definition push_log (e : lentry) (x : dat) : dat :=
-  mkDat (batch x) (btoken x) (armed x) (inflight x) (wms x) (wm x) (timers x) (applied x) (e :: log x).
+  mkDat (batch x) (btoken x) (armed x) (inflight x) (wms x) (wm x) (timers x) (applied x) (e :: log x) (active x).
+
+Definition set_active (a : list nat) (x : dat) : dat :=
+  mkDat (batch x) (btoken x) (armed x) (inflight x) (wms x) (wm x) (timers x) (applied x) (log x) a.
 
 Fixpoint remove_nat (s : nat) (l : list nat) : list nat :=
   match l with [] => [] | y :: l' => if Nat.eqb s y then remove_nat s l' else y :: remove_nat s l' end.
@@ -150,6 +156,12 @@ Definition handle_item (c : cfg) (x : st) (s : nat) (it : item) : st :=
       mkSt modes' sent' (ckpt x) (done x) (add_item c (push_log (LAct o it true) (dt x)) (BEv o id key tm))
   | IWm t =>
       mkSt modes' sent' (ckpt x) (done x) (handle_wm c (push_log (LAct o it true) (dt x)) o t)
+  | IDone =>
+      (* handleSourceComplete: flush the pending batch, deactivate the runner (o.stop() when none is left:
+         see the guard of Handle in step). newCheckpoint keeps using sourceRunners.all, so the set of
+         awaited barriers does not depend on active. *)
+      let d1 := flush None (push_log (LAct o it true) (dt x)) in
+      mkSt modes' sent' (ckpt x) (done x) (set_active (remove_nat s (active d1)) d1)
   | IBar cid =>
       let '(cur, missing) := match ckpt x with Some cm => cm | None => (cid, seq 0 (n_senders c)) end in
       if negb (cid =? cur) then   (* registerBarrier: checkpoint ID mismatch -> error reply *)
@@ -165,7 +177,7 @@ Definition handle_item (c : cfg) (x : st) (s : nat) (it : item) : st :=
         end
   end.
 
-Inductive action := Gate (s : nat) (it : item) | Wake (s : nat) | Handle (s : nat) | TimerFire | Timeout.
+Inductive action := Gate (s : nat) (it : item) | Wake (s : nat) | Handle (s : nat) | TimerFire | Timeout | Cancel (s : nat).
 
 Definition set_d (x : st) (y : dat) : st := mkSt (modes x) (sent x) (ckpt x) (done x) y.
 
@@ -182,20 +194,29 @@ Definition step (c : cfg) (x : st) (a : action) : option st :=
       | _ => None
       end
   | Handle s =>
+      (* after the last active runner's SourceComplete the operator has stopped: nothing is handled any more *)
+      match nth_error (modes x) s, active (dt x) with
+      | Some (Passed it), _ :: _ => Some (handle_item c x s it)
+      | _, _ => None
+      end
+  | Cancel s =>
+      (* the context of sender s's outstanding call is cancelled while it is parked. The code ignores it:
+         the wait is a bare <-c.allBarriersReceived, the enqueue and the handlers never look at ctx.
+         So this is a stutter step: the sender stays parked on the same checkpoint. *)
       match nth_error (modes x) s with
-      | Some (Passed it) => Some (handle_item c x s it)
+      | Some (Parked _ _) => Some x
       | _ => None
       end
   | TimerFire =>
       match armed (dt x) with
       | Some t => let y := dt x in
-          Some (set_d x (mkDat (batch y) (btoken y) None (inflight y ++ [t]) (wms y) (wm y) (timers y) (applied y) (log y)))
+          Some (set_d x (mkDat (batch y) (btoken y) None (inflight y ++ [t]) (wms y) (wm y) (timers y) (applied y) (log y) (active y)))
       | None => None
       end
   | Timeout =>
       match inflight (dt x) with
       | t :: r => let y := dt x in
-          Some (set_d x (flush (Some t) (mkDat (batch y) (btoken y) (armed y) r (wms y) (wm y) (timers y) (applied y) (log y))))
+          Some (set_d x (flush (Some t) (mkDat (batch y) (btoken y) (armed y) r (wms y) (wm y) (timers y) (applied y) (log y) (active y))))
       | [] => None
       end
   end.
